@@ -81,6 +81,10 @@ func (g *docGen) num() string {
 		return strconv.FormatFloat(math.Float64frombits(r.next()&^(0x7ff<<52)|uint64(r.rangeI(900, 1100))<<52), 'g', -1, 64)
 	case 7:
 		return "0.1"
+	case 8:
+		// whole numbers around the limits of the integer types and of exact float integers
+		return []string{"9223372036854775808", "-9223372036854775808", "9223372036854774784", "9223372036854777856", "9007199254740994",
+			"-9007199254740993", "1234567890123456789", "4611686018427387904", "18446744073709551616", "1e19", "4294967296", "-2147483649"}[r.intn(12)]
 	}
 	return strconv.FormatFloat(float64(r.rangeI(-9000, 9000))/100, 'f', -1, 64)
 }
